@@ -181,6 +181,9 @@ type Result struct {
 	Pgid     int
 }
 
+// Env: the environment of a grog process of this sandbox (for callers that start processes themselves).
+func (s *Sandbox) Env() []string { return s.env() }
+
 func (s *Sandbox) env() []string {
 	env := []string{"PATH=" + os.Getenv("PATH"), "HOME=" + s.Home, "GROG_ROOT=" + s.Root, "TRACE=" + s.Trace, "EXT=" + s.ExtDir,
 		"TMPDIR=" + os.TempDir(), "LC_ALL=C", "NO_COLOR=1", "TERM=dumb"}
